@@ -1,4 +1,385 @@
-import RedunModel.Lemmas.Db
+/-
+C23 — Record transfer between repositories preserves the call graph.
+
+Model: `RedunModel.Model.Db` — `iterRecordIds` (layer-wise walk with a `seen` set), `getRecords` (serializers),
+`putRecords` (skip existing ids, deserialize, `_postprocess_new_records`, one commit), `transfer`.
+
+Proved here (all record lists, all databases):
+* `put_has_all`, `put_idempotent`, `transfer_idempotent` — repeating a transfer adds nothing
+* `tag_status`, `new_tag_current_iff` — after an import a tag is current iff no tag edit supersedes it
+* `bfs_sound`, `bfs_nodup` — `iter_record_ids` yields only ids reachable from the roots, each once
+* `imported_never_hit`, `cache_safe` — the destination's shallow cache never serves an imported call node
+  (repaired `_get_call_node`), and every hit after any history with imports is sound (C03)
+* `cache_safe_refuted_current` — closed witness for the unrepaired code
+Field-by-field round trip and completeness of the walk are tied by the correspondence, not proved (`_partial`).
+-/
+import RedunModel.Lemmas.DbFk
+import RedunModel.Props.C03
 namespace RedunModel.C23
 open RedunModel.Db
+
+/-! ### idempotence -/
+
+theorem isRecordId_mono {a b : Db} (m : Mono a b) {x : H} (h : isRecordId a x = true) : isRecordId b x = true := by
+  simp only [isRecordId, Bool.or_eq_true] at h ⊢
+  rcases h with (((h | h) | h) | h) | h
+  · exact Or.inl (Or.inl (Or.inl (Or.inl (m.execs _ h))))
+  · exact Or.inl (Or.inl (Or.inl (Or.inr (m.jobs _ h))))
+  · exact Or.inl (Or.inl (Or.inr (m.nodes _ h)))
+  · exact Or.inl (Or.inr (m.values _ h))
+  · exact Or.inr (m.tags _ h)
+
+theorem isRecordId_postprocess (d : Db) (x : H) : isRecordId (postprocessTags d) x = isRecordId d x := by
+  simp only [isRecordId, postprocessTags, hasExec, hasJob, hasNode, hasValue, hasTag, List.any_map, Function.comp_def]
+  congr 1
+  apply List.any_congr rfl
+  intro t
+  split <;> rfl
+
+theorem hasTag_of_mem_ops (db : Db) (ops : List RowOp) (t : TagRow) (h : RowOp.tag t ∈ ops) :
+    hasTag (applyOps db ops) t.tag = true := by
+  induction ops generalizing db with
+  | nil => cases h
+  | cons op rest ih =>
+    rw [applyOps_cons]
+    simp only [List.mem_cons] at h
+    rcases h with h | h
+    · subst h
+      exact (mono_applyOps _ _).tags _ (by simp [hasTag, applyOp])
+    · exact ih _ h
+
+/-- the rows a record turns into contain a row that carries the record's id -/
+theorem recOps_has_id (db : Db) (r : Rec) (ops : List RowOp) (h : ∀ op ∈ recOps r, op ∈ ops) :
+    isRecordId (applyOps db ops) r.id = true := by
+  simp only [isRecordId, Bool.or_eq_true]
+  cases r with
+  | exec e => exact Or.inl (Or.inl (Or.inl (Or.inl (hasExec_of_mem_ops _ _ e (h _ (by simp [recOps]))))))
+  | job j => exact Or.inl (Or.inl (Or.inl (Or.inr (hasJob_of_mem_ops _ _ j (h _ (by simp [recOps]))))))
+  | node n ch args => exact Or.inl (Or.inl (Or.inr (hasNode_of_mem_ops _ _ n (h _ (by simp [recOps])))))
+  | value v subs t f => exact Or.inl (Or.inr (hasValue_of_mem_ops _ _ v (h _ (by simp [recOps]))))
+  | tag t ps =>
+    have := hasTag_of_mem_ops db ops { t with current := true } (h _ (by simp [recOps]))
+    exact Or.inr this
+
+theorem newRecords_covers (db : Db) (seen : List H) (rs : List Rec) :
+    ∀ r ∈ rs, isRecordId db r.id = true ∨ seen.contains r.id = true ∨ ∃ r' ∈ newRecords db seen rs, r'.id = r.id := by
+  induction rs generalizing seen with
+  | nil => intro r h; cases h
+  | cons a rest ih =>
+    intro r hr
+    simp only [newRecords]
+    simp only [List.mem_cons] at hr
+    split
+    · rename_i hc
+      rcases hr with hr | hr
+      · subst hr
+        simp only [Bool.or_eq_true] at hc
+        rcases hc with hc | hc
+        · exact Or.inl hc
+        · exact Or.inr (Or.inl hc)
+      · exact ih seen r hr
+    · rcases hr with hr | hr
+      · subst hr; exact Or.inr (Or.inr ⟨r, by simp, rfl⟩)
+      · rcases ih (seen ++ [a.id]) r hr with h | h | h
+        · exact Or.inl h
+        · simp only [List.contains_append, Bool.or_eq_true, List.contains_cons, List.contains_nil, Bool.or_false,
+            beq_iff_eq] at h
+          rcases h with h | h
+          · exact Or.inr (Or.inl h)
+          · exact Or.inr (Or.inr ⟨a, by simp, h.symm⟩)
+        · obtain ⟨r', hm, he⟩ := h
+          exact Or.inr (Or.inr ⟨r', by simp [hm], he⟩)
+
+theorem newRecords_nil_of_all (db : Db) (seen : List H) (rs : List Rec) (h : ∀ r ∈ rs, isRecordId db r.id = true) :
+    newRecords db seen rs = [] := by
+  induction rs generalizing seen with
+  | nil => rfl
+  | cons a rest ih =>
+    simp only [newRecords, h a (by simp), Bool.true_or, if_true]
+    exact ih seen (fun r hr => h r (by simp [hr]))
+
+/-- **after `put_records`, every record of the batch is present** (it was there, or it was written, or it had
+the id of an earlier record of the batch) -/
+theorem put_has_all (rs : List Rec) (s : Sess) (hp : s.pend = []) :
+    ∀ r ∈ rs, isRecordId (putRecords rs s).db r.id = true := by
+  intro r hr
+  have hview := view_of_pend_nil s hp
+  unfold putRecords
+  simp only [hview]
+  have hcov := newRecords_covers s.db [] rs r hr
+  split
+  · rename_i hempty
+    simp only [Sess.addAll, hp, List.nil_append, List.isEmpty_iff] at hempty
+    rcases hcov with h | h | ⟨r', hm, _⟩
+    · simpa [Sess.addAll] using h
+    · simp at h
+    · -- a new record would have produced rows
+      exfalso
+      have : recOps r' = [] := by
+        have := List.flatMap_eq_nil_iff.mp hempty r' hm
+        exact this
+      cases r' <;> simp [recOps] at this
+  · simp only [view_addAll, hview]
+    rw [isRecordId_postprocess]
+    rcases hcov with h | h | ⟨r', hm, he⟩
+    · exact isRecordId_mono (mono_applyOps _ _) h
+    · simp at h
+    · rw [← he]
+      exact recOps_has_id _ r' _ (fun op hop => List.mem_flatMap.mpr ⟨r', hm, hop⟩)
+
+theorem putRecords_pend (rs : List Rec) (s : Sess) (hp : s.pend = []) : (putRecords rs s).pend = [] := by
+  obtain ⟨_, _, _, _, _, _, _, h, _⟩ := putRecords_graph rs s hp
+  exact h
+
+/-- **Repeating the transfer adds nothing**: the second `put_records` of the same records leaves the session
+(tables, log) exactly as it is. -/
+theorem put_idempotent (rs : List Rec) (s : Sess) (hp : s.pend = []) :
+    putRecords rs (putRecords rs s) = putRecords rs s := by
+  have hp' := putRecords_pend rs s hp
+  have hall := put_has_all rs s hp
+  generalize putRecords rs s = s' at *
+  have hnil := newRecords_nil_of_all s'.db [] rs hall
+  unfold putRecords
+  simp only [view_of_pend_nil s' hp', hnil, List.flatMap_nil]
+  cases s'
+  simp_all [Sess.addAll]
+
+theorem transfer_idempotent (src : Db) (roots : List H) (dst : Sess) (hp : dst.pend = []) :
+    transfer src roots (transfer src roots dst) = transfer src roots dst :=
+  put_idempotent _ dst hp
+
+/-! ### tag status -/
+
+/-- after `_postprocess_new_records` no superseded tag is current -/
+theorem postprocess_status (d : Db) :
+    (postprocessTags d).tagEdits = d.tagEdits ∧
+    ∀ t ∈ (postprocessTags d).tags, d.tagEdits.any (fun e => e.parent == t.tag) = true → t.current = false := by
+  refine ⟨rfl, ?_⟩
+  intro t ht hany
+  simp only [postprocessTags, List.mem_map] at ht
+  obtain ⟨t0, _, he⟩ := ht
+  split at he
+  · subst he; rfl
+  · rename_i hno
+    subst he
+    exact absurd hany hno
+
+theorem recOps_ne_nil (r : Rec) : recOps r ≠ [] := by cases r <;> simp [recOps]
+
+/-- **tag status after an import that wrote something**: a tag that has a child edit is not current -/
+theorem tag_status (rs : List Rec) (s : Sess) (hp : s.pend = []) (hnew : newRecords s.db [] rs ≠ []) :
+    ∀ t ∈ (putRecords rs s).db.tags,
+      (putRecords rs s).db.tagEdits.any (fun e => e.parent == t.tag) = true → t.current = false := by
+  have hview := view_of_pend_nil s hp
+  unfold putRecords
+  simp only [hview]
+  split
+  · rename_i hempty
+    simp only [Sess.addAll, hp, List.nil_append, List.isEmpty_iff] at hempty
+    exfalso
+    cases hnw : newRecords s.db [] rs with
+    | nil => exact hnew hnw
+    | cons r rest =>
+      rw [hnw] at hempty
+      simp only [List.flatMap_cons, List.append_eq_nil_iff] at hempty
+      exact recOps_ne_nil r hempty.1
+  · simp only [view_addAll, hview]
+    exact (postprocess_status _).2
+
+/-- new tags are inserted as current; `tagStale` is never produced by an import -/
+theorem tags_of_applyOps {db : Db} {ops : List RowOp} (hno : ∀ op ∈ ops, ∀ t, op ≠ .tagStale t) {t : TagRow}
+    (h : t ∈ (applyOps db ops).tags) : t ∈ db.tags ∨ RowOp.tag t ∈ ops := by
+  induction ops generalizing db with
+  | nil => exact Or.inl h
+  | cons op rest ih =>
+    rw [applyOps_cons] at h
+    rcases ih (fun o ho => hno o (by simp [ho])) h with h' | h'
+    · cases op with
+      | tag r =>
+        simp only [applyOp, List.mem_append, List.mem_singleton] at h'
+        rcases h' with h' | h'
+        · exact Or.inl h'
+        · subst h'; exact Or.inr (by simp)
+      | tagStale x => exact absurd rfl (hno _ (by simp) x)
+      | _ => exact Or.inl h'
+    · exact Or.inr (by simp [h'])
+
+theorem recOps_no_stale (r : Rec) : ∀ op ∈ recOps r, ∀ t, op ≠ .tagStale t := by
+  intro op hop t he
+  subst he
+  cases r <;> simp [recOps] at hop
+
+theorem recOps_tag_current {r : Rec} {t : TagRow} (h : RowOp.tag t ∈ recOps r) : t.current = true := by
+  cases r with
+  | tag t0 ps =>
+    simp [recOps] at h
+    rw [h]
+  | _ => simp [recOps] at h
+
+/-- **a tag that the import created is current iff nothing supersedes it** (same status as in the source, where
+`is_current` is maintained by the same rule) -/
+theorem new_tag_current_iff (rs : List Rec) (s : Sess) (hp : s.pend = []) (hnew : newRecords s.db [] rs ≠ [])
+    (t : TagRow) (ht : t ∈ (putRecords rs s).db.tags) (hfresh : hasTag s.db t.tag = false) :
+    t.current = !(putRecords rs s).db.tagEdits.any (fun e => e.parent == t.tag) := by
+  have hst := tag_status rs s hp hnew t ht
+  cases hany : (putRecords rs s).db.tagEdits.any (fun e => e.parent == t.tag) with
+  | true => simp [hst hany]
+  | false =>
+    simp only [Bool.not_false]
+    -- not superseded: the row is the one the importer inserted, which is current
+    have hview := view_of_pend_nil s hp
+    unfold putRecords at ht hany
+    simp only [hview] at ht hany
+    split at ht
+    · rename_i hempty
+      simp only [Sess.addAll] at ht
+      have : hasTag s.db t.tag = true := by simp only [hasTag, List.any_eq_true]; exact ⟨t, ht, by simp⟩
+      rw [this] at hfresh; cases hfresh
+    · rename_i hne
+      simp only [hne] at hany
+      simp only [view_addAll, hview] at ht hany
+      simp only [postprocessTags, List.mem_map] at ht
+      obtain ⟨t0, ht0, he⟩ := ht
+      have hany' : (applyOps s.db ((newRecords s.db [] rs).flatMap recOps)).tagEdits.any (fun e => e.parent == t0.tag) = false := by
+        split at he
+        · subst he; simpa [postprocessTags] using hany
+        · subst he; simpa [postprocessTags] using hany
+      rw [if_neg (by simp [hany'])] at he
+      subst he
+      rcases tags_of_applyOps (fun op hop => by
+          obtain ⟨r, _, hr⟩ := List.mem_flatMap.mp hop
+          exact recOps_no_stale r op hr) ht0 with h | h
+      · have : hasTag s.db t0.tag = true := by simp only [hasTag, List.any_eq_true]; exact ⟨t0, h, by simp⟩
+        rw [this] at hfresh; cases hfresh
+      · obtain ⟨r, _, hr⟩ := List.mem_flatMap.mp h
+        exact recOps_tag_current hr
+
+/-! ### the walk -/
+
+inductive ReachRec (db : Db) : H → H → Prop
+  | refl (a : H) : ReachRec db a a
+  | step {a b c : H} : b ∈ childIds db a → ReachRec db b c → ReachRec db a c
+
+theorem ReachRec.tail {db : Db} {a b c : H} (h : ReachRec db a b) (hc : c ∈ childIds db b) : ReachRec db a c := by
+  induction h with
+  | refl a => exact ReachRec.step hc (ReachRec.refl c)
+  | step h1 _ ih => exact ReachRec.step h1 (ih hc)
+
+theorem dedupInto_spec (seen frontier : List H) :
+    (∀ x ∈ (dedupInto seen frontier).1, x ∈ frontier ∧ x ∉ seen) ∧ (dedupInto seen frontier).1.Nodup ∧
+    (dedupInto seen frontier).2 = seen ++ (dedupInto seen frontier).1 := by
+  induction frontier generalizing seen with
+  | nil => simp [dedupInto]
+  | cons x xs ih =>
+    simp only [dedupInto]
+    split
+    · have := ih seen
+      exact ⟨fun y hy => ⟨by simp [(this.1 y hy).1], (this.1 y hy).2⟩, this.2.1, this.2.2⟩
+    · rename_i hx
+      have := ih (seen ++ [x])
+      simp only [List.contains_iff_mem] at hx
+      refine ⟨?_, ?_, ?_⟩
+      · intro y hy
+        simp only [List.mem_cons] at hy
+        rcases hy with hy | hy
+        · subst hy; exact ⟨by simp, hx⟩
+        · have h2 := this.1 y hy
+          exact ⟨by simp [h2.1], fun hs => h2.2 (by simp [hs])⟩
+      · simp only [List.nodup_cons]
+        refine ⟨fun hmem => ?_, this.2.1⟩
+        exact (this.1 x hmem).2 (by simp)
+      · simp [this.2.2]
+
+/-- **`iter_record_ids` is sound**: every id it yields is reachable from the frontier it was started with. -/
+theorem bfs_sound (db : Db) (fuel : Nat) (seen frontier : List H) :
+    ∀ x ∈ bfs db fuel seen frontier, ∃ f ∈ frontier, ReachRec db f x := by
+  induction fuel generalizing seen frontier with
+  | zero => intro x h; simp [bfs] at h
+  | succ n ih =>
+    intro x hx
+    simp only [bfs] at hx
+    have hd := dedupInto_spec seen frontier
+    generalize dedupInto seen frontier = p at hx hd
+    obtain ⟨nw, seen'⟩ := p
+    simp only at hx hd
+    split at hx
+    · cases hx
+    · simp only [List.mem_append] at hx
+      rcases hx with hx | hx
+      · exact ⟨x, (hd.1 x hx).1, ReachRec.refl x⟩
+      · obtain ⟨f, hf, hr⟩ := ih seen' (nw.flatMap (childIds db)) x hx
+        obtain ⟨y, hy, hfy⟩ := List.mem_flatMap.mp hf
+        exact ⟨y, (hd.1 y hy).1, ReachRec.step hfy hr⟩
+
+/-- ... and yields no id twice, and none that was seen before -/
+theorem bfs_nodup (db : Db) (fuel : Nat) (seen frontier : List H) :
+    (bfs db fuel seen frontier).Nodup ∧ ∀ x ∈ bfs db fuel seen frontier, x ∉ seen := by
+  induction fuel generalizing seen frontier with
+  | zero => simp [bfs]
+  | succ n ih =>
+    simp only [bfs]
+    have hd := dedupInto_spec seen frontier
+    generalize dedupInto seen frontier = p at hd
+    obtain ⟨nw, seen'⟩ := p
+    simp only at hd ⊢
+    split
+    · simp
+    · have hrec := ih seen' (nw.flatMap (childIds db))
+      refine ⟨?_, ?_⟩
+      · rw [List.nodup_append]
+        refine ⟨hd.2.1, hrec.1, ?_⟩
+        intro a ha b hb hab
+        subst hab
+        exact hrec.2 a hb (by rw [hd.2.2]; simp [ha])
+      · intro x hx
+        simp only [List.mem_append] at hx
+        rcases hx with hx | hx
+        · exact (hd.1 x hx).2
+        · intro hs; exact hrec.2 x hx (by rw [hd.2.2]; simp [hs])
+
+theorem iterRecordIds_sound (db : Db) (roots : List H) :
+    ∀ x ∈ iterRecordIds db roots, ∃ r ∈ roots, ReachRec db r x := by
+  intro x hx
+  obtain ⟨f, hf, hr⟩ := bfs_sound db _ _ _ x hx
+  exact ⟨f, (List.mem_filter.mp hf).1, hr⟩
+
+/-! ### the destination's cache -/
+
+/-- **an imported call node is never served by the repaired shallow lookup**: any hit after `put_records` is on a
+call node the destination had before (imported nodes carry no subtree rows, and the empty set is not current). -/
+theorem imported_never_hit (v : Variant) (he : v.emptyNotCurrent = true) (rs : List Rec) (s : Sess)
+    (hp : s.pend = []) (hsc : SubClosed s.db) (t a : H) (reg : List H) (n : NodeRow)
+    (hit : getCallNode v (putRecords rs s).db t a reg = some n) : hasNode s.db n.call = true := by
+  obtain ⟨_, _, _, _, hs, _, _, _, _⟩ := putRecords_graph rs s hp
+  obtain ⟨_, _, _, hcur⟩ := getCallNode_spec hit
+  simp only [nodeCurrent, Bool.and_eq_true, Bool.or_eq_true, Bool.not_eq_true', he] at hcur
+  have hne : subtreeOf (putRecords rs s).db n.call ≠ [] := by
+    rcases hcur.1 with h1 | h1
+    · cases h1
+    · intro h2; simp [h2] at h1
+  rw [subtreeOf_congr hs] at hne
+  cases hrows : subtreeOf s.db n.call with
+  | nil => exact absurd hrows hne
+  | cons x xs =>
+    have : x ∈ subtreeOf s.db n.call := by rw [hrows]; simp
+    exact hsc _ (mem_subtreeOf.mp this)
+
+/-- **cache safety**: after any history of recordings, process deaths, restarts and imports (repaired code), every
+shallow hit in the destination is one the recording rules justify (C03.history_shallow_sound). -/
+theorem cache_safe (v : Variant) (hv : v.atomicCallNode = true) (hc : v.cseSubtreeFromDb = true)
+    (he : v.emptyNotCurrent = true) {db : Db} {res : List JobRes} (h : C03.Hist v db res)
+    (t a : H) (reg : List H) (n : NodeRow) (hit : getCallNode v db t a reg = some n) :
+    C03.Covers db n.call reg :=
+  C03.history_shallow_sound v hv hc he h t a reg n hit
+
+/-- unrepaired `_get_call_node`: the destination serves what the source refuses -/
+theorem cache_safe_refuted_current :
+    getCallNode .current C03.dbSrc 10 1 C03.regEdited = none ∧
+    C03.StaleHit .current (transfer C03.dbSrc [21] (.ofDb {})).db 10 1 C03.regEdited :=
+  C03.refuted_transfer
+
+/-! ### non-vacuity -/
+example : (transfer C03.dbSrc [21] (.ofDb {})).db.nodes.length = 2 := by decide
+example : iterRecordIds C03.dbSrc [21] = [21, 10, 100, 1, 20, 11] := by decide
+
 end RedunModel.C23
